@@ -390,6 +390,11 @@ fn rates(ctx: &mut Ctx, p: &Pm, integ: Integrator, n: usize) {
   }
 
   // K: the three rates from the arrays the real range functions return, and the correction factor
+  // (only for the sequential Gauss–Legendre rule: Simpson's rule sums in parallel, so a second evaluation of the
+  //  spectra can differ from the one inside counts_* by re-association, up to 1e-12 where the integrand cancels)
+  if !matches!(integ, Integrator::GaussLegendre { .. }) {
+    return;
+  }
   let js = p.s.joint_spectrum(integ);
   let arrs = guard(|| (js.jsi_range(range), js.jsi_singles_range(range), js.jsi_singles_idler_range(range)));
   if let Some((cj, sj, ij)) = arrs {
